@@ -24,6 +24,9 @@ def one(job):
     try:
         rc, o = sh(["git", "-C", wt, "apply", os.path.join(DST, sid, "patch.diff")])
         if rc:
+            rc, o = sh(["git", "-C", wt, "apply", "--3way", os.path.join(DST, sid, "patch.diff")])
+        if rc:
+            print(sid, "APPLY FAILED", o[-300:])
             return sid, {"error": "apply failed " + o}
         for p in props:
             env = dict(os.environ, VERIF_REPO=wt, VERIF_PROCS=os.environ.get("SEED_PROCS", "4"), VERIF_EVIDENCE_DIR=f"/tmp/sr/ev_{sid}")
